@@ -112,6 +112,19 @@ template <typename T> Sx pure_case(std::string const& cmd, Sx const& a)
         if (!e.exact()) throw std::runtime_error("select: canonical number not reproduced by the engine");
         return Sx::list({Sx::num(r)});
     }
+    if (cmd == "selects")
+    {
+        auto ws = floats<T>(a.at(0));
+        hep::discrete_distribution<std::size_t, T> d(ws.begin(), ws.end());
+        Sx out = Sx::list();
+        for (auto u : floats<T>(a.at(1)))
+        {
+            canonical_engine<T> e(u);
+            out.add(Sx::num(d(e)));
+            if (!e.exact()) throw std::runtime_error("selects: canonical number not reproduced by the engine");
+        }
+        return out;
+    }
     if (cmd == "kahan")
     {
         T s = T(), ss = T(), c = T();
